@@ -39,3 +39,15 @@ func (c *Cache) SimReferences() map[schema.GroupVersionKind][]OwnerReference {
 	}
 	return out
 }
+
+// SimReferencesUnlocked is SimReferences for callers that know no task runs (E2 scheduler).
+func (c *Cache) SimReferencesUnlocked() map[schema.GroupVersionKind][]OwnerReference {
+	out := map[schema.GroupVersionKind][]OwnerReference{}
+	for gvk, refs := range c.informerReferences {
+		out[gvk] = []OwnerReference{}
+		for r := range refs {
+			out[gvk] = append(out[gvk], r)
+		}
+	}
+	return out
+}
